@@ -213,13 +213,31 @@ Section Ops.
         end
     end.
 
-  (** CreateHandler + createModel.  [from_fallthrough]: the unrepaired handler reports the error of
-      parseFromModel but goes on with no base layers *)
-  Definition op_create_gen (gen : list name -> name -> name) (lfl : store -> digest -> N -> option layer)
-             (from_fallthrough : bool) (s : store) (q : create_req) : run * result :=
+  (** setTemplate: removeLayer first, then the template is parsed *)
+  Definition create_template (r : run) (layers : list layer) (q : create_req) : run * list layer * bool :=
+    match cr_template q with
+    | None => (r, layers, true)
+    | Some (valid, c) =>
+        let (ra, ls) := remove_layer_mt r layers MT_TEMPLATE in
+        if valid then let (rc, l) := new_layer ra MT_TEMPLATE c in (rc, ls ++ [l], true)
+        else (ra, ls, false)
+    end.
+
+  (** setSystem, setLicense*, setParameters, setMessages, createConfigLayer *)
+  Definition create_tail (r2 : run) (layers2 : list layer) (q : create_req) : run * manifest :=
+    let (r3, layers3) := set_layer r2 layers2 MT_SYSTEM (cr_system q) in
+    let (r4, layers4) := add_layers r3 layers3 MT_LICENSE (cr_license q) in
+    let (r5, layers5) := set_layer r4 layers4 MT_PARAMS (cr_params q) in
+    let (r6, layers6) := set_layer r5 layers5 MT_MESSAGES (cr_messages q) in
+    let (r7, cfg) := new_layer r6 MT_CONFIG (cr_config q) in
+    (r7, MkManifest cfg layers6).
+
+  (** CreateHandler + createModel up to (not including) WriteManifest: the run so far and, unless an error
+      stopped the handler, the manifest about to be written and whether an error was reported on the way.
+      [from_fallthrough]: the unrepaired handler reports the error of parseFromModel but goes on with no base layers *)
+  Definition create_build (lfl : store -> digest -> N -> option layer) (from_fallthrough : bool) (s : store) (q : create_req)
+    : run * option (manifest * bool) :=
     let r0 := init s in
-    let n := gen (readable_names s) (cr_name q) in
-    let old := mget n s in
     let (rb, ob) := base_layers lfl r0 (cr_base q) in
     let b := match ob with
              | Some ls => Some (ls, true)
@@ -229,27 +247,25 @@ Section Ops.
                        end
              end in
     match b with
-    | None => (rb, RErr)
+    | None => (rb, None)
     | Some (layers, clean) =>
-        let r1 := rb in
-        (* setTemplate: removeLayer first, then the template is parsed *)
-        let '(r2, layers2, okt) :=
-          match cr_template q with
-          | None => (r1, layers, true)
-          | Some (valid, c) =>
-              let (ra, ls) := remove_layer_mt r1 layers MT_TEMPLATE in
-              if valid then let (rb, l) := new_layer ra MT_TEMPLATE c in (rb, ls ++ [l], true)
-              else (ra, ls, false)
-          end in
-        if negb okt then (r2, RErr) else
-        let (r3, layers3) := set_layer r2 layers2 MT_SYSTEM (cr_system q) in
-        let (r4, layers4) := add_layers r3 layers3 MT_LICENSE (cr_license q) in
-        let (r5, layers5) := set_layer r4 layers4 MT_PARAMS (cr_params q) in
-        let (r6, layers6) := set_layer r5 layers5 MT_MESSAGES (cr_messages q) in
-        let (r7, cfg) := new_layer r6 MT_CONFIG (cr_config q) in
-        let r8 := write_manifest r7 n (Readable (MkManifest cfg layers6)) in
+        let '(r2, layers2, okt) := create_template rb layers q in
+        if negb okt then (r2, None) else
+        let (r7, m) := create_tail r2 layers2 q in
+        (r7, Some (m, clean))
+    end.
+
+  (** WriteManifest, then the layers of the replaced manifest that nobody uses any more are removed *)
+  Definition op_create_gen (gen : list name -> name -> name) (lfl : store -> digest -> N -> option layer)
+             (from_fallthrough : bool) (s : store) (q : create_req) : run * result :=
+    let n := gen (readable_names s) (cr_name q) in
+    let old := mget n s in
+    match create_build lfl from_fallthrough s q with
+    | (r7, None) => (r7, RErr)
+    | (r7, Some (m, clean)) =>
+        let r8 := write_manifest r7 n (Readable m) in
         let r9 := match old with
-                  | Some (Readable m) => remove_layers r8 m
+                  | Some (Readable mo) => remove_layers r8 mo
                   | _ => r8
                   end in
         (r9, if clean then ROk else RErr)
@@ -397,6 +413,49 @@ Section Ops.
   Definition crash (s : store) (o : op) (k : nat) : store := apply_list s (firstn k (effects s o)).
   (** restart *)
   Definition recover (s : store) : store := exec s OStartup.
+
+  (** ** Decidable guards (the classes of operations the theorems are stated for) *)
+  Definition blob_okb (s : store) (l : layer) : bool :=
+    dcolon (ldg l)
+    && match bget (dhex (ldg l)) s with Some c => c =? dhex (ldg l) | None => false end
+    && (lsz l =? size_of (dhex (ldg l))).
+  Definition man_okb (s : store) (m : manifest) : bool := forallb (blob_okb s) (all_layers m).
+
+  (** a create does not delete, while it assembles its layer list, a blob that a layer kept in that list uses
+      (removeLayer only scans the stored manifests, not the list in the making) *)
+  Definition create_check (s : store) (q : create_req) : bool :=
+    match create_build layer_from_layer false s q with
+    | (r7, Some (m, _)) => man_okb (rs r7) m
+    | _ => true
+    end.
+
+  (** the registry is honest and self-consistent: canonical digests, sizes as published, bytes that hash to the digest *)
+  Fixpoint contents_ok (ls : list layer) (cs : list (option N)) : bool :=
+    match ls with
+    | [] => true
+    | l :: lt =>
+        match hd None cs with Some c => c =? dhex (ldg l) | None => true end && contents_ok lt (tl cs)
+    end.
+  Definition served_ok (v : served) : bool :=
+    forallb (fun l => dcolon (ldg l) && (lsz l =? size_of (dhex (ldg l)))) (all_layers (sv_manifest v))
+    && contents_ok (all_layers (sv_manifest v)) (sv_contents v).
+
+  Definition op_guard (s : store) (o : op) : bool :=
+    match o with
+    | OCreate q => create_check s q
+    | OPull _ (Some v) => served_ok v
+    | _ => true
+    end.
+
+  (** the one manifest an operation may touch *)
+  Definition op_target (s : store) (o : op) : option name :=
+    match o with
+    | OCreate q => Some (get_existing (readable_names s) (cr_name q))
+    | OCopy _ dst => Some (get_existing (readable_names s) dst)
+    | ODelete n => Some (get_existing (readable_names s) n)
+    | OPull n _ => Some (get_existing (readable_names s) n)
+    | OBlob _ _ | OStartup => None
+    end.
 
   (** the unrepaired tree *)
   Definition op_run_legacy (s : store) (o : op) : run * result :=
